@@ -23,7 +23,7 @@ def cases(seed, tier):
     out = []
     cells = c01.cell_list(tier) + [dict(target="hole", kernel="tpcn", resample="mult", clustering=False), dict(target="hole", kernel="rwm", resample="syst", clustering=False)]
     if tier == "quick":  # the evidence needs fewer target shapes than the posterior expectations: keep the quick tier near two minutes
-        cells = [c for c in cells if c["target"] in ("corr", "bimodal", "hole") or c.get("arm") or c.get("vv") or (c["target"] == "expedge")]
+        cells = [c for c in cells if c["target"] in ("corr", "bimodal", "hole") or c.get("arm") or c.get("vv") or (c["target"] == "expedge") or (c["target"] == "halfgauss_reflective" and c["kernel"] == "rwm")]
     for cell in cells:
         out += E.cell_cases(cell, sizes, R, sch, "c02")
     n_log = 24 if tier == "quick" else 600
